@@ -1,6 +1,7 @@
 package main
 
 import (
+	"syscall"
 	"bufio"
 	"crypto/sha256"
 	"encoding/hex"
@@ -484,7 +485,11 @@ func orchestrate(prop, tier string, seed uint64) int {
 		if st, err := os.Stat("/dev/shm"); err == nil && st.IsDir() {
 			if d, err := os.MkdirTemp("/dev/shm", "verif-probe-"); err == nil {
 				_ = os.Remove(d)
-				tmp = "/dev/shm"
+				// only if it has room: the far / giant / huge cases keep several GiB of (mostly sparse) files there at a time
+				var fs syscall.Statfs_t
+				if err := syscall.Statfs("/dev/shm", &fs); err == nil && uint64(fs.Bavail)*uint64(fs.Bsize) >= 16<<30 {
+					tmp = "/dev/shm"
+				}
 			}
 		}
 	}
